@@ -19,7 +19,7 @@ import time
 
 VERIF = os.path.dirname(os.path.dirname(os.path.abspath(__file__)))
 REPO = os.environ.get("MANIF_REPO", "/repo")
-BUILD = os.path.join(VERIF, "build")
+BUILD = os.environ.get("VERIF_BUILD_DIR") or os.path.join(VERIF, "build")
 NCPU = int(os.environ.get("VERIF_JOBS", str(os.cpu_count() or 4)))
 
 FLAVOURS = {
@@ -472,8 +472,9 @@ def handle_candidate(prop, cand, thorough, tmpdir):
         sanitizer_report=(err1[-6000:] if san else ""),
     )
     known = match_finding(prop, cls0, rep["violation"]["detail"], final)
-    os.makedirs(os.path.join(VERIF, "replays"), exist_ok=True)
-    rpath = os.path.join(VERIF, "replays", "%s-%s.json" % (prop, seed))
+    rdir = os.path.join(BUILD if os.environ.get("VERIF_NO_EVIDENCE") else VERIF, "replays")
+    os.makedirs(rdir, exist_ok=True)
+    rpath = os.path.join(rdir, "%s-%s.json" % (prop, seed))
     json.dump(rep, open(rpath, "w"), indent=1)
     return dict(kind="known" if known else "violation", seed=seed, replay=rpath, cls=cls0, finding=known,
                 detail=rep["violation"]["detail"], steps=len(steps), steps_before=n0)
@@ -552,6 +553,12 @@ def aggregate(prop, tier, seed, results, wall, build_s, violations, notes):
                 combos.add(c)
     if prop == "C10":
         distinct = combos
+    diags = {k[2:]: v for k, v in agg.items() if k.startswith("d.")}
+    diag_names = {}
+    for r in results:
+        for k, v in r.items():
+            if k.startswith("d.") and isinstance(v, str):
+                diag_names.setdefault(k[2:], set()).add(v)
     faults = {k[2:]: v for k, v in agg.items() if k.startswith("f.")}
     probes = {k[2:]: v for k, v in agg.items() if k.startswith("p.")}
     ops = {k[3:]: v for k, v in agg.items() if k.startswith("op.")}
@@ -573,10 +580,12 @@ def aggregate(prop, tier, seed, results, wall, build_s, violations, notes):
             logical_steps=int(agg.get("steps", 0)),
             simulated_time="no clock in the system under test; simulated time = logical steps (library operations "
                            "for history checks, scheduler decisions for schedule checks)",
+            diagnostics=dict(counts=diags, names={k: sorted(v)[:20] for k, v in diag_names.items()},
+                             note="observations that are not violations by themselves (DESIGN 2.4)"),
             fault_fired=faults, probes=probes, probes_at_zero=zero_probes, operations=ops,
             runs_by_flavour=by_flavour,
             maxima={k: v for k, v in agg.items() if k.startswith("max_")},
-            other={k: v for k, v in agg.items() if k[:2] not in ("f.", "p.") and not k.startswith("op.") and not k.startswith("max_")},
+            other={k: v for k, v in agg.items() if k[:2] not in ("f.", "p.", "d.") and not k.startswith("op.") and not k.startswith("max_")},
             components=dict(
                 real=["manif headers of /repo working tree", "Eigen 3.4", "tl::optional", "libstdc++ (guards, exceptions)",
                       "pthreads", "process memory"],
@@ -593,8 +602,9 @@ def aggregate(prop, tier, seed, results, wall, build_s, violations, notes):
         wall_s=round(wall, 2),
         violations=violations,
     )
-    os.makedirs(os.path.join(VERIF, "evidence"), exist_ok=True)
-    json.dump(ev, open(os.path.join(VERIF, "evidence", prop + ".json"), "w"), indent=1)
+    evdir = os.path.join(BUILD if os.environ.get("VERIF_NO_EVIDENCE") else VERIF, "evidence")
+    os.makedirs(evdir, exist_ok=True)
+    json.dump(ev, open(os.path.join(evdir, prop + ".json"), "w"), indent=1)
     return ev
 
 
@@ -711,6 +721,9 @@ def do_check(prop, tier):
     cov = ev["coverage"]
     print("runs=%d distinct_nontrivial=%d runs/h=%d steps=%d wall=%.1fs build=%.1fs violations=%d" % (
         cov["evaluations"], cov["distinct_nontrivial"], cov["runs_per_hour"], cov["logical_steps"], wall, build_s, nviol), flush=True)
+    if cov["diagnostics"]["counts"]:
+        print("NOTE diagnostics (not violations by themselves): %s %s" % (json.dumps(cov["diagnostics"]["counts"]),
+                                                                       json.dumps(cov["diagnostics"]["names"])[:600]), flush=True)
     if cov["probes_at_zero"]:
         print("WARNING probes at zero: %s" % cov["probes_at_zero"], flush=True)
     print("faults fired: %s" % json.dumps(cov["fault_fired"]), flush=True)
